@@ -54,6 +54,12 @@ func vh_c11_new(region int) {
 		check(cutCount() == 0 && res.isInf() && !res.IsNaN() && res.Signbit() == neg, "C11: New above the range must be an infinity")
 		reach("C11:newinf")
 	default:
+		if cutCount() == 0 && res.IsZero() && !res.isSpecial() {
+			k := concretize(-1 - (exp + exponentBias))
+			check(res.Signbit() == neg && k >= 1 && k <= 300 && a.Lt(zpow10(k)), "C11: New early zero exit taken for a value that is not below 1e-6177")
+			reach("C11:newearly")
+			return
+		}
 		check(cutCount() == 1, "C11: New must round sig x 10^exp (early exit taken although the value may be representable)")
 		if cutCount() != 1 {
 			return
@@ -112,6 +118,13 @@ func vh_c11_ldexp(region int) {
 		check(res.isInf() && !res.IsNaN() && res.Signbit() == neg, "C11: Ldexp above the range must be an infinity")
 		reach("C11:ldexpinf")
 	default:
+		if cutCount() == 0 && res.IsZero() && !res.isSpecial() {
+			// an early zero exit is right only below the flush threshold: F x 10^(tot-6176) < 10^-6177  <=>  F < 10^(-1-tot)
+			k := concretize(-1 - tot.Int())
+			check(res.Signbit() == neg && k >= 1 && k <= 300 && F.Lt(zpow10(k)), "C11: Ldexp early zero exit taken for a value that is not below 1e-6177")
+			reach("C11:ldexpearly")
+			return
+		}
 		check(cutCount() == 1, "C11: Ldexp must round frac x 10^exp (early exit taken although the value may be representable)")
 		if cutCount() != 1 {
 			return
